@@ -57,6 +57,25 @@ def run(chk):
             return f"dyn_loss = {found}"
         chk.run("C03.R1", site + "->dynamic_loss_apply", cfg, go, construct="dyn_loss formula")
 
+    # an equation returning a scalar (float) residual per point - the documented return kind of `equation`
+    for eq_type in ('ODE', 'statio_PDE', 'nonstatio_PDE'):
+        for pk in ((), ('nu',)):
+            cfg = {"loss": eq_type, "net": "PINN", "residual": "scalar (0-d)", "weight": "scalar", "param_batch": list(pk)}
+            site = {"ODE": "jinns.loss._LossODE:LossODE.evaluate", "statio_PDE": "jinns.loss._LossPDE:LossPDEStatio.evaluate",
+                    "nonstatio_PDE": "jinns.loss._LossPDE:LossPDENonStatio.evaluate"}[eq_type]
+
+            def go(eq_type=eq_type, pk=pk):
+                dyn = E.user_dynamic_loss(eq_type, 1, scalar=True)
+                S = SingleLoss(E, eq_type, 'PINN', d=2, m_u=1, m_res=1, terms=('dyn',), dyn=dyn)
+                total, terms = S.evaluate(param_keys=pk)
+                found = canon(scalar_of(terms['dyn_loss'], 'dyn_loss'))
+                ref = SingleLoss(E, eq_type, 'PINN', d=2, m_u=1, m_res=1, terms=('dyn',))
+                exp = canon(scalar_of(ref.expected_dyn(pk), 'spec'))
+                if found != exp:
+                    raise Violation("dyn_loss", str(found), str(exp))
+                return f"dyn_loss = {found}"
+            chk.run("C03.R1", site + "->dynamic_loss_apply", cfg, go, construct="dyn_loss formula (scalar residual)")
+
     # the dynamic term must not depend on the observation part of the batch (observed parameters belong to the
     # observation term only)
     for eq_type in ('ODE', 'statio_PDE', 'nonstatio_PDE'):
